@@ -234,6 +234,10 @@ def _run(pid, cfg, tier, seed, repo, work, t0):
         else:
             o["status"] = "discharged"
 
+    mut = None
+    if tier == "thorough":
+        from . import mutants
+        mut = mutants.run(pid, repo, work)
     wall = time.time() - t0
     ev = dict(
         property_id=pid, tier=tier, seed=seed, level="proof",
@@ -250,6 +254,7 @@ def _run(pid, cfg, tier, seed, repo, work, t0):
             kani=[dict(group=k["group"], harnesses=[{kk: vv for kk, vv in h.items() if kk != "output"} for h in k["harnesses"] if pid in h["props"]]) for k in kres],
             samples=[o for o in obligations][:400],
             undecided=undecided,
+            detection_selftest=mut if mut is not None else "thorough tier only",
             exhaustive=False,
             explanation="obligations = labelled contract clauses (postconditions, loop invariants) of the real functions listed, one safety obligation per function (overflow, bounds, callee preconditions, asserts), Kani harnesses, and the supporting lemmas; discharged by the back end named per obligation on /repo's current working tree",
         ),
